@@ -11,13 +11,13 @@ for f in sorted(glob.glob(V+'/seeded/*/meta.json')):
 def rnd(k): return (int(k.split('-m')[1])+1)//2
 rounds=sorted(set(rnd(r['k']) for r in rows))
 out=["## 9. Seeded changes: which checks catch what\n",
-"%d property-breaking changes (%d per property, in %d rounds) were written by fresh sub-agents that were given\nonly the text of one property and a private scratch worktree of `/repo` - nothing from `/verif` (from round 2 on they\nalso got one-line descriptions of the earlier changes of their property, with the instruction to produce something\ndifferent: multi-step histories, map orders, aliasing, caches, cooperating sites, clauses not yet exercised). Each\nchange was verified independently (`tools/seed_verify.sh`): its demonstration passes on the unmodified tree, the\nrepository's own suite passes with the change, the demonstration fails with the change. They are stored under\n`seeded/<id>-m<k>/` (patch.diff, demo_test.go.txt, meta.json); none was ever applied to `/repo` itself (checks run\nagainst them through a scratch copy, `VERIF_REPO`). `tools/seed_all.sh` re-runs everything; this section is generated\nby `tools/mksection9.py`.\n" % (len(rows), len(rows)//20, len(rounds)),
+"%d property-breaking changes (14 per property in 7 rounds, and 2 more for ten of the properties in an 8th; %d..%d per property, %d rounds) were written by fresh sub-agents that were given\nonly the text of one property and a private scratch worktree of `/repo` - nothing from `/verif` (from round 2 on they\nalso got one-line descriptions of the earlier changes of their property, with the instruction to produce something\ndifferent: multi-step histories, map orders, aliasing, caches, cooperating sites, clauses not yet exercised). Each\nchange was verified independently (`tools/seed_verify.sh`): its demonstration passes on the unmodified tree, the\nrepository's own suite passes with the change, the demonstration fails with the change. They are stored under\n`seeded/<id>-m<k>/` (patch.diff, demo_test.go.txt, meta.json); none was ever applied to `/repo` itself (checks run\nagainst them through a scratch copy, `VERIF_REPO`). `tools/seed_all.sh` re-runs everything; this section is generated\nby `tools/mksection9.py`.\n" % (len(rows), 14, 16, len(rounds)),
 "| Round | Changes | Caught by the checks as they were at the time | Caught now (quick tier) |\n|---|---|---|---|"]
 for r in rounds:
     rr=[x for x in rows if rnd(x['k'])==r]
     out.append("| %d | %d | %d | %d |"%(r,len(rr),sum(1 for x in rr if x['first']),sum(1 for x in rr if x['now'])))
 out.append("")
-out.append("Every miss was an alphabet or driver gap - or, twice, a bug of the harness itself - never a wrong oracle; each was\nclosed by widening a harness or adding one (listed per change below), with zero alarms on the unmodified tree\nafterwards. The one change that is not caught, C05-m4, only manifests on a type that declares an attribute and a\nrelationship of the same name; JSON:API gives the fields of a resource one namespace, so such a type is outside the\ndomain, and on it the unmodified library itself returns the attribute's value for the relationship - it is recorded as\nnot detected by design.\n")
+out.append("Every miss was an alphabet or driver gap - or, twice, a bug of the harness itself - never a wrong oracle; each was\nclosed by widening a harness or adding one (listed per change below), with zero alarms on the unmodified tree\nafterwards. The two changes that are not caught, C05-m4 and C12-m15, only manifest on a type that declares an attribute and a\nrelationship of the same name; JSON:API gives the fields of a resource one namespace, so such a type is outside the\ndomain, and on it the unmodified library itself returns the attribute's value for the relationship - it is recorded as\nnot detected by design.\n")
 out.append("Four early changes no longer break their property on the current tree (their demonstrations now pass with the change\napplied): C01-m4, C12-m2 and C15-m3 relied on schema types keeping nil maps, a state the repair f7750ef (section 5.1) removed;\nC20-m5 relied on Set(id) going through setField, which the repair f072ded removed. They are kept with the result of the last run against the tree on which they were valid\nregressions and marked (*) below.\n")
 out.append("| Change | Caught at first | Caught now | Signature(s) reported now | What it needs to manifest | Strengthening that closed a miss |")
 out.append("|---|---|---|---|---|---|")
